@@ -77,6 +77,8 @@ class Rng:
 
     def __init__(self, seed, stream=0):
         self.s = (seed * 0x9E3779B97F4A7C15 + stream * 0xBF58476D1CE4E5B9 + 0x1234567) & self.M
+        # hash the initial state: without this, seed n+1 is seed n's stream advanced by one draw
+        self.s = self.next() ^ ((seed * 0xD6E8FEB86659FD93 + stream) & self.M)
 
     def next(self):
         self.s = (self.s + 0x9E3779B97F4A7C15) & self.M
